@@ -1,7 +1,7 @@
 """C12 — layout items land in the documented cells; per-row/column settings follow."""
 import json
 
-from .. import common, uiparse
+from .. import regen, common, uiparse
 
 MAXI = 65535
 ALIGN = ["Qt.AlignLeft", "Qt.AlignRight", "Qt.AlignHCenter", "Qt.AlignTop", "Qt.AlignBottom", "Qt.AlignVCenter", "Qt.AlignCenter"]
@@ -365,8 +365,15 @@ def run(tier, seed, replay=None):
     v.assumptions = ["reference flow model of this file (40 lines, from the property text; cursor semantics of a lone row/column as "
                      "pinned by the repository's own unit tests)",
                      "unspecified entries of the per-row/column arrays are not judged (the property does not state their value)"]
+    # the cells on disk are the cells of the CURRENT source (an index edited into another one of the same length)
+    _w = regen.HEAD + "QWidget {\n    QGridLayout {\n        columns: 3\n        QLabel { %s }\n        QLabel { %s }\n    }\n}\n"
+    n_hist = 0 if replay else regen.regenerated_equals_fresh(v, "c12hist", [
+        (_w % ("QLayout.row: 1", "QLayout.column: 2"), _w % ("QLayout.row: 2", "QLayout.column: 1")),
+        (_w % ("QLayout.columnStretch: 3", "QLayout.rowStretch: 4"), _w % ("QLayout.columnStretch: 4", "QLayout.rowStretch: 3")),
+        (_w % ("QLayout.rowSpan: 2", "QLayout.alignment: Qt.AlignTop"), _w % ("QLayout.rowSpan: 3", "QLayout.alignment: Qt.AlignTop")),
+    ], "stale-cells-after-edit", "layout indices edited")
     return v.finish(
-        evaluations=len(cases), distinct_nontrivial=len(distinct),
+        histories_on_disk=n_hist, evaluations=len(cases), distinct_nontrivial=len(distinct),
         rule="grid (both flows, columns/rows 1-6 or unset), form and box layouts with 1-14 children and random optional "
              "row/column/span/alignment/stretch/minimum-size attachments (row-wise values consistent per row but different "
              "between rows sharing a column); a sixth with one invalid value; distinct = distinct (flow, counts, cell "
